@@ -1,6 +1,7 @@
 mod common;
 mod alloc;
 mod fes;
+mod gates;
 mod rt;
 
 fn main() {
@@ -15,6 +16,7 @@ fn main() {
         ("fes", "replay") => fes::replay(&args[2..]),
         ("fes", "record") => fes::record(&args[2..]),
         ("rt", "replay") => rt::replay(&args[2..]),
+        ("gates", "replay") => gates::replay(&args[2..]),
         ("alloc", "replay") => alloc::replay(&args[2..]),
         ("alloc", "record") => alloc::record(&args[2..]),
         ("alloc", "sizes") => alloc::sizes(&args[2..]),
